@@ -47,6 +47,8 @@ def validate(check, module, lines, constants="", shards=None, name=None, spec="T
                 fails.append((lo + t[1] - 1, t[2]))
             elif t and t[0] == "TRACE-END":
                 end = t[1]
+        if r.out.count('"TRACE-FAIL"') != len([p for p in r.prints if '"TRACE-FAIL"' in p]):
+            raise MachineryError("trace validation of %s shard %d: TRACE-FAIL lines in TLC's output were not all parsed" % (name, k))
         if r.violated or end != hi - lo:
             raise MachineryError("trace validation of %s shard %d did not consume all %d lines (end=%s, violated=%s)\n%s"
                                  % (name, k, hi - lo, end, r.violated, r.out[-2500:]))
